@@ -6,7 +6,8 @@ compound indexes; the indexed field holds dates on both sides of the cutoff with
 margins >= 30 min, numbers, strings, booleans, timestamps, null, arrays with and
 without dates, embedded documents, or is missing; further TTL collections with
 nothing to expire); then the real Transaction.Expire runs on a locked transaction and
-is committed, twice, and once through the engine's background loop.  TLC computes
+is committed, twice (every second round on a file store after a close/reopen), and once through the
+engine's background loop.  TLC computes
 Database!ExpireDb on the observed pre-state (cutoff = now - expiry by exact decimal
 arithmetic) and compares the post-state, the delete events per namespace, index
 listings, and requires a pass that removes nothing to change nothing."""
@@ -20,7 +21,7 @@ def run(tier, replay):
     bins = V.build(["dbt"], work)
     nontrivial = set()
     modes = [("ttl", c.seed + i, []) for i in range(1 if tier == "quick" else 5)]
-    dbtrace.CLASSES["C19"] = ("expire:", "expire")
+    dbtrace.CLASSES["C19"] = ("expire:", "expire", "reload:")
     dbtrace.run_modes(c, "C19", bins, work, modes, nontrivial)
     c.cov["rule"] = ("5 index sets x 2 rounds x 2 namespaces with a pool of 20 value shapes per TTL field, plus 4 TTL collections with nothing to expire, 2 passes each, and one "
                      "run of the background loop; distinct_nontrivial counts distinct (call kind, failed?, state changed?, events?) tuples incl. the expire passes")
